@@ -83,6 +83,28 @@ func (n *node[T]) AllowHeader() string { return methodIndexes[n.methodIndex].opt
 // Methods 当前节点支持的请求方法
 func (n *node[T]) Methods() []string { return methodIndexes[n.methodIndex].methods }
 
+// 检测 methods 是否都能添加至 n，n 为 nil 表示节点尚不存在。
+func (tree *Tree[T]) checkMethods(n *node[T], methods ...string) error {
+	for i, m := range methods {
+		if m == http.MethodOptions || m == http.MethodHead || (tree.hasTrace && m == http.MethodTrace) {
+			return fmt.Errorf("无法手动添加 OPTIONS/HEAD/TRACE 请求方法")
+		}
+		if _, found := methodIndexMap[m]; !found {
+			return fmt.Errorf("该请求方法 %s 不被支持", m)
+		}
+
+		if slices.Contains(methods[:i], m) {
+			return fmt.Errorf("该请求方法 %s 已经存在", m)
+		}
+		if n != nil {
+			if _, found := n.handlers[m]; found {
+				return fmt.Errorf("该请求方法 %s 已经存在", m)
+			}
+		}
+	}
+	return nil
+}
+
 // 添加一个处理函数
 func (n *node[T]) addMethods(h T, pattern string, ms []types.Middleware[T], methods ...string) error {
 	for _, m := range methods {
